@@ -69,6 +69,9 @@ func (fm *FileHandleMap) Allocate(f absfs.File) uint64 {
 		}
 		// Evict starting from the lowest handles
 		for h := minHandle; evictCount > 0; h++ {
+			if h == handle {
+				continue // never evict the handle being returned
+			}
 			if file, exists := fm.handles[h]; exists {
 				// Clean up path mapping for evicted entries
 				if node, ok := file.(*NFSNode); ok {
